@@ -1028,7 +1028,13 @@ class TeX(object):
         self.cast()
 
         """
-        return type(self.normalize(tokens))
+        value = self.normalize(tokens)
+        # Tokens that are not plain characters (~, \&, {...}, ...) come
+        # back as a node or fragment: its text is the source that was
+        # written, not the repr of the Python object
+        if not isinstance(value, str) and hasattr(value, 'source'):
+            value = value.source
+        return type(value)
 
     def castLabel(self, tokens, **kwargs):
         """
